@@ -122,6 +122,24 @@ class Ctx:
             return 'no automaton for %s or %s' % (S, T)
         a, au = self.dfa[S]
         b, bu = self.dfa[T]
+        if any(name.startswith(CONV_GUARD) for name, _, _ in guards):
+            # a guard "the conversion f succeeds on this text": its language is computed (convexact) over bytes, so the whole inclusion is
+            # decided over the UTF-8 bytes of both languages
+            from . import utf8
+            a = utf8.to_bytes(a) if au else a
+            b = utf8.to_bytes(b) if bu else b
+            for (name, pol, _root) in guards:
+                g = self.guard_dfa(name)
+                if g is None:
+                    return 'the language of the guard %s could not be determined' % name
+                a = intersect(a, g) if pol else difference(a, g)
+            w = included(a, b)
+            if w is None:
+                return None
+            try:
+                return bytes(w).decode('utf-8')
+            except UnicodeDecodeError:
+                return repr(bytes(w))
         for (name, pol, _root) in guards:
             g = lang.predicate_dfa(name, au)
             a = intersect(a, g) if pol else difference(a, g)
@@ -143,6 +161,19 @@ class Ctx:
             return bytes(w).decode('utf-8')
         except UnicodeDecodeError:
             return repr(bytes(w))
+
+    def guard_dfa(self, name):
+        """byte-level language of a guard predicate: a named predicate of spec/predicates.abnf, or 'succeeds:<f>' = the texts on which the own
+        one-argument function f yields a value (convexact); None when that set cannot be determined"""
+        if not name.startswith(CONV_GUARD):
+            return lang.predicate_dfa(name, False)
+        from . import convexact
+        if not hasattr(self, '_exact'):
+            self._exact = convexact.Exact(self.P, self)
+        try:
+            return self._exact.fn(name[len(CONV_GUARD):])[0]
+        except convexact.Undetermined:
+            return None
 
     def concat_inclusion(self, pieces, T):
         """L(p1)·L(p2)… ⊆ L(T); pieces are validated type names (URI family) or byte literals"""
@@ -492,6 +523,29 @@ def _classify_arg(ctx, b, bi, t, callee, a0, rb):
     return ('?', None, '', False, f'unrecognised unsafe operation (callee {callee}, argument {_short(a0)})')
 
 
+CONV_GUARD = 'succeeds:'
+
+
+def conversion_guard(ctx, t, pol):
+    """`f(x).is_some()` / is_ok() / is_none() / is_err() with f an own function of one argument: the test "f yields a value on the text of x"
+    (e.g. `self.as_uri().is_some()`); its language is what convexact computes for f"""
+    while t[0] == 'unop' and t[1] == 'Not':
+        t, pol = t[2], not pol
+    if t[0] != 'call' or not t[2]:
+        return None
+    m = re.search(r'^std::(option::Option::<T>|result::Result::<T, E>)::(is_some|is_ok|is_none|is_err)$', t[1])
+    if not m:
+        return None
+    if m.group(2) in ('is_none', 'is_err'):
+        pol = not pol
+    x = t[2][0]
+    if x[0] == 'call' and x[1].startswith(OWN) and '::parse::' not in x[1] and not x[1].endswith('new_unchecked') and len(x[2]) == 1 and ctx.P.body(x[1]) is not None:
+        root = ctx.text_root(x[2][0])
+        if root is not None and root[0] == 'arg':
+            return (CONV_GUARD + x[1], pol, root)
+    return None
+
+
 OWN = ('uri::', 'iri::', 'common::', '<uri::', '<iri::', '<common::', '<<uri::', '<<iri::', "<&'a uri::", "<&'a iri::", "<<&'a uri::", "<<&'a iri::")
 
 
@@ -512,8 +566,8 @@ def guard_predicates(ctx, b, bb):
     out = []
     T = ctx.I.terms(b['name'])
     for (d, op, val) in mir.guards(b, bb):
-        t = T.operand(op)
-        t = terms.inline_calls(ctx.I, ctx.I.expand(t), own_inlinable)
+        t0 = T.operand(op)
+        t = terms.inline_calls(ctx.I, ctx.I.expand(t0), own_inlinable)
         pol = True
         if t[0] == 'discr':
             # `match opt { Some(_) => .., None => .. }`: the discriminant of an Option is the same test as is_some()
@@ -530,7 +584,7 @@ def guard_predicates(ctx, b, bb):
             pol = True
         else:
             continue
-        nf = normal_guard(ctx, t, pol)
+        nf = normal_guard(ctx, t, pol) or conversion_guard(ctx, ctx.I.expand(t0), pol)
         if nf:
             out.append(nf)
     return out
